@@ -370,6 +370,11 @@ fn populations(max_n: usize) -> Vec<Vec<TInd>> {
     for n in 1..=max_n.min(3) {
         pops.extend(tagged_pops(n, &[2.0, 3.0]));
     }
+    // objective values far closer together than the machine epsilon are still different; zeros of either sign are equal
+    pops.push(vec![(0, 2e-17), (1, 1e-17)]);
+    pops.push(vec![(0, 3e-17), (1, 1e-17), (2, 0.0), (3, 2e-17)]);
+    pops.push(vec![(0, 1.0 + 4.0 * f64::EPSILON), (1, 1.0 + f64::EPSILON), (2, 1.0 + 2.0 * f64::EPSILON)]);
+    pops.push(vec![(0, 1.0), (1, 0.0), (2, -0.0)]);
     // larger populations for the DE selections (need 2y+1 members)
     pops.push((0..5).map(|i| (i as u32, [3.0, -1.0, 0.0, 0.0, 7.0][i])).collect());
     pops.push((0..6).map(|i| (i as u32, [1.0, 1.0, 1.0, 0.5, 2.0, 0.5][i])).collect());
